@@ -595,12 +595,16 @@ def run(ctx):
         # (the full product of the two deeper bounds is 53 M cases; enumerated lazily, nothing is stored per case)
         ctx.explore('spellings', ((c, s) for c in base for s in sps), 'eval_spelling', chunk=64)
         wide = [c for c in rule_shapes(2) if len([k_ for k_ in c if k_ not in ('freq', 'start', 'kind')]) == 2]
-        ctx.explore('spellings-rules-k<=2', ((c, s) for c in wide for s in sp1 + sp2), 'eval_spelling', chunk=256)
+        # (with every <= 1-deviation spelling; with every 2-deviation spelling on a rotating third of them: the full
+        # product is 16.6 M cases)
+        ctx.explore('spellings-rules-k<=2', itertools.chain(((c, s) for c in wide for s in sp1),
+                                                            ((c, s) for i, c in enumerate(wide) if i % 3 == ctx.seed % 3 for s in sp2)),
+                    'eval_spelling', chunk=256)
     ctx.explore('sets', set_cases(), 'eval_set', chunk=16)
     ctx.explore('sets-zones', set_tz_cases(), 'eval_set_tz', chunk=16)
     ctx.explore('malformed', MALFORMED, 'eval_malformed', serial=True)
     ctx.coverage_extra.update({
-        'bounds': {'roundtrip_k': k, 'spelling_rule_k': kr, 'spelling_deviation_k': ks, 'thorough_products': 'rules k<=1 x spellings k<=3; rules k<=2 x spellings k<=2', 'occurrences_compared': N_OCC},
+        'bounds': {'roundtrip_k': k, 'spelling_rule_k': kr, 'spelling_deviation_k': ks, 'thorough_products': 'rules k<=1 x spellings k<=3; rules k<=2 x spellings k<=1, and x spellings k=2 on a rotating third', 'occurrences_compared': N_OCC},
         'rule': 'round trip over C01 shapes with naive starts; spellings = rule shapes x deviation-bounded spelling features; '
                 'sets = product of member selections x options; non-trivial = at least 2 occurrences compared',
         'spelling_menus': {k_: v for k_, v in SPELL.items()},
